@@ -75,11 +75,14 @@ def check_error(dc, st, e, f, phase_unpack, what, case, snip):
     fieldnames = [n for n, _ in P['fields']] if P else []
     if not m and isinstance(name, str) and name not in fieldnames and not name.startswith('_'):
         # any other spelling of "the run of adjacent fields from x to y": the field names it mentions
-        toks = [t for t in re.findall(r'[A-Za-z_][A-Za-z_0-9]*', name) if t in fieldnames]
+        toks = [t for t in (x[len('_described_'):] if x.startswith('_described_') else x for x in re.findall(r'[A-Za-z_][A-Za-z_0-9]*', name)) if t in fieldnames]
         if toks:
             m = (toks[0], toks[-1])
     elif m:
         m = (m.group(1), m.group(2))
+    if m:
+        # a described field appears under its hidden name
+        m = tuple(x[len('_described_'):] if x.startswith('_described_') else x for x in m)
     if m:
         run = names_in_run(P, m[0], m[1]) if P else None
         if not run or not (set(run) & set(rnames)):
